@@ -672,3 +672,146 @@ func idioms(a *acc, d []int, withCounter bool) {
 		}
 	}
 }
+
+// ---------------------------------------------------------------------------------------------
+// Reducers: "Functions that consume an iterator and produce some kind of final value"; Equal:
+// "Consumes the iterators". After the call the source must have been advanced as far as the
+// documentation implies:
+//
+//	Collect, Last, Reduce   the whole source (their value depends on every item and on the end)
+//	One                     at least min(len, 2) items (it cannot answer otherwise); up to all
+//	Equal                   all sequences equal (also a single one): every source completely;
+//	                        first disagreement at position p: every source at least min(p, len)
+//	                        (all of that had to be compared), up to all of it
+//
+// Nothing here bounds reducers from above by laziness (they are documented to consume).
+
+// restBounds checks that rest is the suffix of src left after losing between lo and hi items.
+func restBounds(src, rest []int, lo, hi int) string {
+	lostN := len(src) - len(rest)
+	if lostN < 0 || !slices.Equal(src[len(src)-len(rest):], rest) {
+		return fmt.Sprintf("the rest of the source reads %v, which is not a suffix of %v", rest, src)
+	}
+	if lostN < lo || lostN > hi {
+		want := fmt.Sprintf("between %d and %d", lo, hi)
+		if lo == hi {
+			want = fmt.Sprintf("exactly %d", lo)
+		}
+		return fmt.Sprintf("the source was advanced by %d item(s) (rest %v), the documentation implies %s", lostN, rest, want)
+	}
+	return ""
+}
+
+func reducerPosition(a *acc, d []int, lastKs []int) {
+	if a.failed {
+		return
+	}
+	n := len(d)
+	shIt, shSt := shapedKinds(d)
+	run := func(pkg, op, param, kind string, lo, hi int, call func() func() []int) bool {
+		if a.failed {
+			return false
+		}
+		msg := ""
+		a.arm(n)
+		a.posChecks++
+		pan := vkit.Try(func() { msg = restBounds(d, call()(), lo, hi) })
+		sig := "source-position"
+		if pan != nil {
+			sig, msg = panicKind(pan), panicMsg(pan)
+		}
+		if msg != "" {
+			a.fail(sig, pkg, op, fmt.Sprintf("%s.%s(%s) directly over %s(%v) is documented to consume its input: %s", pkg, op, param, kind, brief(d), msg),
+				map[string]any{"source": d, "source_kind": kind, "param": param})
+			return false
+		}
+		return true
+	}
+	f := func(acc, x int) int { return acc*31 + x + 1 }
+	two := min(n, 2)
+	for _, k := range append(slices.Clone(iterSrcKinds), shIt...) {
+		k := k
+		ok := run("iterator", "Collect", "-", k.name, n, n, func() func() []int { it, rest := k.mk(d); iterator.Collect(it); return rest }) &&
+			run("iterator", "One", "-", k.name, two, n, func() func() []int { it, rest := k.mk(d); iterator.One(it); return rest }) &&
+			run("iterator", "Reduce", "-", k.name, n, n, func() func() []int { it, rest := k.mk(d); iterator.Reduce(it, 7, f); return rest }) &&
+			run("iterator", "Equal", "1 sequence", k.name, n, n, func() func() []int { it, rest := k.mk(d); iterator.Equal(it); return rest })
+		for _, lk := range lastKs {
+			lk := lk
+			ok = ok && run("iterator", "Last", fmt.Sprintf("n=%d", lk), k.name, n, n, func() func() []int { it, rest := k.mk(d); iterator.Last(it, lk); return rest })
+		}
+		if !ok {
+			return
+		}
+	}
+	for _, k := range append(slices.Clone(streamSrcKinds), shSt...) {
+		k := k
+		ok := run("stream", "Collect", "-", k.name, n, n, func() func() []int { s, rest := k.mk(d); stream.Collect(bg, s); return rest }) &&
+			run("stream", "One", "-", k.name, two, n, func() func() []int { s, rest := k.mk(d); stream.One(bg, s); return rest }) &&
+			run("stream", "Reduce", "-", k.name, n, n, func() func() []int {
+				s, rest := k.mk(d)
+				stream.Reduce(bg, s, 7, func(acc, x int) (int, error) { return f(acc, x), nil })
+				return rest
+			})
+		for _, lk := range lastKs {
+			lk := lk
+			ok = ok && run("stream", "Last", fmt.Sprintf("n=%d", lk), k.name, n, n, func() func() []int { s, rest := k.mk(d); stream.Last(bg, s, lk); return rest })
+		}
+		if !ok {
+			return
+		}
+	}
+}
+
+// equalPosition: iterator.Equal over the library's own sources, any number of them (0, 1, 2, ...).
+func equalPosition(a *acc, seqs [][]int) {
+	if a.failed || len(seqs) == 0 {
+		return
+	}
+	// first position at which the sequences disagree (in an item or in having ended), or -1
+	p := -1
+	if !refEqual(seqs) {
+		for p = 0; ; p++ {
+			differ := false
+			for _, s := range seqs[1:] {
+				if (p < len(s)) != (p < len(seqs[0])) || (p < len(s) && s[p] != seqs[0][p]) {
+					differ = true
+				}
+			}
+			if differ {
+				break
+			}
+		}
+	}
+	for ki := range iterSrcKinds {
+		msg := ""
+		a.arm(len(refConcat(seqs)))
+		a.posChecks++
+		pan := vkit.Try(func() {
+			its := make([]iterator.Iterator[int], len(seqs))
+			rests := make([]func() []int, len(seqs))
+			for i, s := range seqs {
+				its[i], rests[i] = iterSrcKinds[(ki+i)%len(iterSrcKinds)].mk(s) // kinds mixed within one call
+			}
+			iterator.Equal(its...)
+			for i, s := range seqs {
+				lo := len(s)
+				if p >= 0 {
+					lo = min(p, len(s))
+				}
+				if m := restBounds(s, rests[i](), lo, len(s)); m != "" {
+					msg = fmt.Sprintf("argument %d (%v): %s", i, s, m)
+					return
+				}
+			}
+		})
+		sig := "source-position"
+		if pan != nil {
+			sig, msg = panicKind(pan), panicMsg(pan)
+		}
+		if msg != "" {
+			a.fail(sig, "iterator", "Equal", fmt.Sprintf("iterator.Equal(%d sequences) directly over iterator.Slice / iterator.Chan sources %v is documented to consume the iterators: %s", len(seqs), seqs, msg),
+				map[string]any{"sequences": seqs, "first_disagreement": p})
+			return
+		}
+	}
+}
